@@ -84,6 +84,9 @@ RULE = (
     'in the quick tier (every k within 2 of the boundary at which the slow user is asked, every 5th / 2nd k '
     'otherwise) and over every k in the thorough tier; in pairing cases with k <= coverage.user_prompt_at the user '
     'never answers (case field user=never), otherwise after 2 virtual seconds. '
+    'Directed (every process): every procedure x {local, remote disconnect, link loss} with the caller cancelled at the very '
+    'moment the Disconnection Complete event is handed to its host (abandon.on_event; cancellation and event are processed in '
+    'the same loop iteration). '
     'Extension 2 (case field abandon = {how, silent_at, at, after_ms}): the caller abandons the procedure before the cut. '
     'Enumerated: for the procedures of coverage.abandon_enumerated (quick: the 10 short L2CAP / RFCOMM / GATT / EATT '
     'ones; thorough: all 22 whose answer comes from the peer\'s host) every s in 0..M (quick: up to the first s at '
@@ -423,6 +426,15 @@ async def _r_acl_disconnect(env, _):
     await env.conn_l.disconnect()
 
 
+async def _r_sustain(env, _):
+    # idles until the link goes away (the cut ends it) or 40 s have passed
+    try:
+        await env.conn_l.sustain(40.0)
+    except (asyncio.TimeoutError, TimeoutError):
+        return 'timeout'
+    return 'ended'
+
+
 async def _r_remote_features(env, _):
     return int(await env.conn_l.get_remote_le_features())
 
@@ -684,6 +696,7 @@ PROCS = [
     Proc('eatt_connect', False, 'gatt_client.Client.connect_eatt()', _no_setup, _r_eatt_connect, _eq('CONNECTED')),
     Proc('eatt_subscribe', False, 'subscribe() over an EATT bearer', _s_eatt, _r_subscribe),
     Proc('le_acl_disconnect', False, 'Connection.disconnect() (LE)', _no_setup, _r_acl_disconnect),
+    Proc('le_acl_sustain', False, 'Connection.sustain(40 s) (LE)', _no_setup, _r_sustain),
     Proc('le_read_remote_features', False, 'Connection.get_remote_le_features()', _no_setup, _r_remote_features),
     Proc('hci_le_read_phy', False, 'Host.send_command(HCI_LE_Read_PHY_Command)', _no_setup, _r_read_phy, _eq(0)),
     Proc('hci_commands_concurrent', False, 'three concurrent Host.send_command() calls (one in flight, two queued)', _no_setup,
@@ -868,8 +881,13 @@ def norm_abandon(ab) -> dict:
     if silent_at is not None and after_ms is None:
         # with a silent peer the boundary `at` may never be reached: the caller gives up after 5 s at the latest
         after_ms = 5 * ABANDON_AFTER_MS
-    return {'how': how, 'silent_at': None if silent_at is None else int(silent_at),
-            'at': None if at is None else int(at), 'after_ms': None if after_ms is None else int(after_ms)}
+    out = {'how': how, 'silent_at': None if silent_at is None else int(silent_at),
+           'at': None if at is None else int(at), 'after_ms': None if after_ms is None else int(after_ms)}
+    if ab.get('on_event'):
+        # the caller gives up at the very moment the Disconnection Complete event is handed to its host (task.cancel()
+        # right before Host.on_packet: the cancellation and the event are processed in the same loop iteration)
+        out['on_event'] = True
+    return out
 
 
 def norm_case(case) -> dict:
@@ -1041,6 +1059,14 @@ def _run_case(ctx, case, loop, measure) -> None:
 
     for n in env.w.nodes:
         n.tap.listeners.append(listener)
+
+    if ab and ab.get('on_event'):
+        def give_up_as_event_arrives(direction, packet):
+            if direction == world.C2H and packet[:2] == b'\x04\x05':
+                labels.add('abandoned/as_disconnection_event_arrives')
+                give_up()
+
+        local.tap.listeners.append(give_up_as_event_arrives)
 
     base_tasks = set(loop.pending_tasks())
 
@@ -1298,7 +1324,7 @@ def _record(ctx, case, labels, S, proc, measure) -> None:
     nontrivial = cut is not None and (inside or gave_up or cut == 'transport_lost')
     fp = (case['proc'], k, cut, case_delays(case)) + ((case['user'],) if case.get('user') else ())
     if ab:
-        fp += (('abandon', ab['how'], ab['silent_at'], ab['at'], ab['after_ms']),)
+        fp += (('abandon', ab['how'], ab['silent_at'], ab['at'], ab['after_ms'], bool(ab.get('on_event'))),)
     ctx.case(fp, nontrivial, labels,
              sample={'proc': case['proc'], 'what': proc.what, 'k': k, 'cut': cut, 'delays_ms': case_delays(case),
                      **({'abandon': ab, 'messages_at_give_up': S.get('count_at_give_up')} if ab else {}),
@@ -1410,6 +1436,17 @@ def run(ctx) -> None:
                     run_case(ctx, {'proc': name, 'k': None, 'cut': cut, 'delays': [],
                                    'abandon': {'how': how, 'silent_at': s_at, 'after_ms': ABANDON_AFTER_MS}})
 
+    # ---- the caller gives up at the very moment the Disconnection Complete is handed to its host (every process runs
+    # this small family): all 37+ procedures x the three cut kinds that end in that event, k = 0 and k = None
+    for p in PROCS:
+        for cut in ('local_disconnect', 'remote_disconnect', 'link_loss'):
+            for k in (0, None):
+                if ctx.out_of_time():
+                    ctx.label('budget_hit:enumeration')
+                    continue
+                run_case(ctx, {'proc': p.name, 'k': k, 'cut': cut, 'delays': [],
+                               'abandon': {'how': 'cancel', 'on_event': True, 'after_ms': 30000}})
+
     # ---- generated delays for a sample of (procedure, k, cut)
     def triple(name):
         return st.fixed_dictionaries({
@@ -1483,6 +1520,7 @@ def run(ctx) -> None:
     # extension 2: the caller gave up a pending procedure and the cut came afterwards (enumerated family spread over
     # the shards + the generated family of every shard: the floors hold per shard)
     ctx.floor('abandoned/given_up_before_cut', 150 if single else 200)
+    ctx.floor('abandoned/as_disconnection_event_arrives', 20)
     for how in ABANDON_HOW:
         ctx.floor(f'abandoned/given_up_before_cut/{how}', 40)
     for kind in KINDS:
